@@ -36,8 +36,11 @@ PROP = dict(
         "(Proofs/LearnLink.lean) DISCHARGES it: the hypothesis is replaced by C10.durable_lookup_linked (C10's protocol, every schedule "
         "of the snapshot writer, over C09's concrete TrieBuf layers / entries() / TrieBuilder) and C09.layered_over_map; "
         "learn_is_dictionary_call_linked ties one learn_phrase of this model (UserMap.insert) to the DictionaryMut call of C09's MapSpec "
-        "(add_phrase accepted because the phrase is not live / update_phrase). STILL TRUSTED there: a complete file is the leaves written "
-        "(C09's file abstraction; the byte-level round trip is C11) and the step-model assumptions of C10. The harness checks persistence on "
+        "(add_phrase accepted because the phrase is not live / update_phrase). learned_persists_bytes_linked removes the last file assumption: the file is BYTES "
+        "(C11's write / Trie::new / lookup_all_phrases under C09.file_layer_is_C11 under C10.durable_lookup_bytes_linked) - the real reader's exact "
+        "lookup of the bytes at the path lists the learned phrase with exactly the learned (frequency, time); explicit hypotheses: call arguments of "
+        "the Rust types, initial file written from valid entries, every snapshot within C11's format limits (Fits), key of non-zero syllables. "
+        "STILL TRUSTED there: the control skeleton of C10's step model (its schedule-exact correspondence). The harness checks persistence on "
         "file-backed traces, waiting for the background writer before closing (the in-flight-writer schedule is C10's F12)",
         "candidate window = merged lookup of the range (C07); commit of a chosen phrase yields the single interval (C04)",
         "F07 (bare public estimate() panics when freq < 10 or freq < orig_freq in the long-gap band, or orig_freq > max_freq in a rising band) "
@@ -59,9 +62,9 @@ MANIFEST = dict(
          "single-character reading refuted by design), user dictionary unchanged when disabled, learned phrase listed by the merged lookup, "
          "50 <= 64 learnings put X strictly above every homophone for all frequency pairs <= 1 000 000 (monotone gap induction, no pair "
          "enumeration; 50 is tight), and then X is the default conversion of the bare syllables: BFS shortest path = whole-range edge and "
-         "trim_paths removes all competitors are proved, the graph construction is hypothesis + correspondence (partial). Persistence across reopen: learned_persists (explicit hypothesis) and learned_persists_linked (hypothesis discharged by C10's durability theorem over C09's concrete TrieBuf + C09's Layered theorem; remaining assumption: file = leaves written, C11) + harness. "
+         "trim_paths removes all competitors are proved, the graph construction is hypothesis + correspondence (partial). Persistence across reopen: learned_persists (explicit hypothesis) and learned_persists_linked (hypothesis discharged by C10's durability theorem over C09's concrete TrieBuf + C09's Layered theorem; and learned_persists_bytes_linked: the file as bytes, C11 under C09.file_layer_is_C11, hypotheses Fits / valid arguments explicit) + harness. "
          "Tie: translator + per-step correspondence through a real Editor (in-memory and file-backed user dictionaries) + exact estimate grid.",
     note="Trusted: Lean kernel (axioms propext, Classical.choice, Quot.sound only), tools/extract.py, the harness and the compiled model driver. "
-         "partial clauses: top_is_default (graph-construction hypotheses), persistence (learned_persists_linked: reopen hypothesis discharged by C10.durable_lookup_linked + C09.layered_over_map; remaining: trie-file byte round trip = C11, C10's step-model assumptions), candidate window (C07).",
+         "partial clauses: top_is_default (graph-construction hypotheses), persistence (learned_persists_linked: reopen hypothesis discharged by C10.durable_lookup_linked + C09.layered_over_map; learned_persists_bytes_linked: also the trie-file byte round trip, by C11 through C09.file_layer_is_C11, with explicit Fits / validity hypotheses; remaining: the control skeleton of C10's step model), candidate window (C07).",
     technique="Lean 4 proof (induction, invariants, omega over translator-regenerated constants) + sampled model/implementation correspondence with a statement-level oracle",
 )
